@@ -540,12 +540,8 @@ class WriterThread(threading.Thread):
             or event.is_paramaterized_replaceable
         ):
             saved_id = event.id_bytes
-            event.created_at - 1
             if event.is_paramaterized_replaceable:
-                try:
-                    d_tag = [tag[1] for tag in event.tags if tag[0] == "d"][0]
-                except IndexError:
-                    d_tag = None
+                d_tag = get_d_value(event)
             else:
                 d_tag = None
 
@@ -559,9 +555,8 @@ class WriterThread(threading.Thread):
                     if event_id == saved_id:
                         continue
                     candidate = decode_event(get_event_data(txn, event_id))
-                    if d_tag is not None:
-                        if not all(candidate.has_tag("d", d_tag)):
-                            continue
+                    if d_tag is not None and get_d_value(candidate) != d_tag:
+                        continue
                     self._delete_event(txn, candidate, log)
                     counter["count"] += 1
 
@@ -1211,6 +1206,17 @@ def get_event_data(txn, event_id: bytes):
         return unpackb(txn.get(b"\x00" + event_id), use_list=False)
     except TypeError:
         return None
+
+
+def get_d_value(event: Event) -> str:
+    """
+    NIP-33: the value of the first "d" tag.
+    A missing tag, a bare ["d"] and ["d", ""] all mean the empty value
+    """
+    for tag in event.tags:
+        if tag[0] == "d":
+            return tag[1] if len(tag) > 1 else ""
+    return ""
 
 
 def bytes_from_hex(hexstr: str) -> bytes:
